@@ -141,6 +141,7 @@ def main():
     t0 = time.time()
     mod = importlib.import_module("props.%s" % prop.lower())
     obs = mod.generate(args.tier, seed)
+    obs.append(_lemma_ob(prop))
     if args.only:
         obs = [o for o in obs if args.only in o.id]
     ids = [o.id for o in obs]
@@ -228,6 +229,20 @@ def main():
             print("HARNESS-ERROR %s" % h[:1500], file=sys.stderr)
         return HARNESS_ERROR
     return 0
+
+
+def _lemma_ob(prop):
+    """the rewrite rules the engine relies on are themselves discharged by the solver on every run"""
+    def q():
+        from engine import lemmas
+        n, nq, st, failures = lemmas.prove_all()
+        if failures:
+            raise RuntimeError("engine lemma failed: %s" % failures[:3])
+        return "confirmed", "%d lemmas" % n, None, nq, st
+    return runner.Ob(id="%s.engine-lemmas" % prop, prop=prop, params=[], body=None, direct=q,
+                     funcs=["engine/chplug.py rewrite rules (bit operations, branch-free sign extension)"],
+                     skeleton="QF_BV lemmas for the bit-operation rewrite rules, widths 8-64", bound="84 lemmas",
+                     timeout=120, oracle="z3 (cvc5 cross-check on a sample)")
 
 
 def _short(cex):
